@@ -54,6 +54,11 @@ def build(u):
             u.count('R-closure', f.annotate_closure('x', 'x: &Arc<str>', "(o: &str) ensures o@ == arc_chars(x)", expect=1))
     def prep_ssc(f):
         u.count('R-closure', f.annotate_closure('x', 'x: &str', "(o: SourceView) ensures sv_text(&o) == x@", expect=1))
+    # R-mono, second instantiation (T = String, as decode_regular calls it); emitted under another name so that both coexist
+    def sig_string(f):
+        mono(f, u, 'T', r'Into<Arc<str>>', 'String')
+        f.rewrite(r'\bfn set_source_root\b', 'fn set_source_root__string', expect=1)
+    emit_method(u, T, r'SourceMap\b', 'set_source_root', 'types::SourceMap::set_source_root<String>', prep=prep_ssr, sig_prep=sig_string)
     for g in ['get_source_root', 'get_source', 'set_source', 'get_source_count', 'get_source_contents', 'set_source_contents',
               'get_name', 'get_name_count', 'get_debug_id', 'set_debug_id', 'get_file', 'add_to_ignore_list', 'remove_names']:
         emit_method(u, T, r'SourceMap\b', g, 'types::SourceMap::' + g, prep=prep_ssc if g == 'set_source_contents' else prep_get)
